@@ -7,6 +7,8 @@
     internal/server/communicator.go  multiplexToUpstream (one handler "/"+name per kept channel),
                                      muxHandler (first kept channel with protocol == "/"+name, one OpenConnection)
     internal/client/upstream         openStream: SelectProtoOrFail(fmt.Sprintf("/%s", name))
+    several servers / websocket paths  Srv, endpointKept, runAt: which kept list a request arriving on endpoint
+                                     (server i, path) is served with (component `expose`, real servers end to end)
 
   go-multistream's matching is third-party: a parameter `ms : handlers → token → Bool` here; the property
   theorems assume the exact-match contract, the correspondence validates it on the real library.
@@ -88,6 +90,44 @@ def run (ms : List Str → Str → Bool) (k : Kind) (chs : List Chan) (allow : L
   let s := startup k chs allow
   if s.listening then (s, serve ms s.kept proto) else (s, .unreachable, [])
 
+/-! ## several servers sharing the channel table; websocket paths (component `expose`)
+
+  serverCmd.Command hands the one channel table to the Startup of every configured server; each server keeps
+  its own filtered list (`upstreams` field), an HttpServer one list per websocket endpoint (handed to
+  `EndpointHandler` and captured by the handler it returns, which chi registers for the endpoint's path).
+  A request arrives on one endpoint: server `i`, and for HTTP the URL path. -/
+
+inductive Srv
+  | plain (k : Kind) (allow : List Str)          -- socket / packet / stdio (/ dns) with its allow-list
+  | http (eps : List (Str × List Str))           -- websocket endpoints: (path, allow-list), configuration order
+  deriving Repr
+
+/-- HttpServer.Startup: some endpoint's Filter failed (⇒ `return errs` before net.Listen) -/
+def httpErr (chs : List Chan) (eps : List (Str × List Str)) : Bool := eps.any (fun e => (filter chs e.2).2)
+
+/-- (Startup returned an error, something is listening) -/
+def srvStarted (chs : List Chan) : Srv → Bool × Bool
+  | .plain k allow => ((startup k chs allow).err, (startup k chs allow).listening)
+  | .http eps => if httpErr chs eps then (true, false) else (false, true)
+
+/-- the channel list connections arriving on the endpoint are served with; `none`: nothing is served there
+    (the server did not start, or the HTTP router has no handler for the path) -/
+def endpointKept (chs : List Chan) : Srv → Str → Option (List Chan)
+  | .plain k allow, _ => if (startup k chs allow).listening then some (startup k chs allow).kept else none
+  | .http eps, path =>
+    if httpErr chs eps then none
+    else (eps.find? (fun e => decide (e.1 = path))).map (fun e => (filter chs e.2).1)
+
+/-- one request for `proto` arriving on endpoint (server `i`, `path`) of the configuration `srvs` -/
+def runAt (ms : List Str → Str → Bool) (chs : List Chan) (srvs : List Srv) (i : Nat) (path : Str) (proto : Str) :
+    Res × List Nat :=
+  match srvs[i]? with
+  | none => (.unreachable, [])
+  | some s =>
+    match endpointKept chs s path with
+    | none => (.unreachable, [])
+    | some kept => serve ms kept proto
+
 /-! ## line protocol -/
 
 def exact (hs : List Str) (tok : Str) : Bool := hs.contains tok
@@ -116,6 +156,49 @@ def handle (toks : List String) : String :=
         | .connect t => "connect:" ++ toString t | .refused => "refused" | .unreachable => "unreachable"
       let ds := if r.2.2.isEmpty then "-" else natList r.2.2
       s!"err={if r.1.err then 1 else 0} listening={if r.1.listening then 1 else 0} exposed={ex} res={res} dials={ds}"
+  | _ => "bad-op"
+
+def parseEp (e : String) : Option (Str × List Str) :=
+  match e.splitOn ":" with
+  | [p, a] => some (p.toList, listTok a)
+  | _ => none
+
+def parseSrv (s : String) : Option Srv :=
+  match s.splitOn "=" with
+  | [k, v] =>
+    match k with
+    | "socket" => some (.plain .socket (listTok v))
+    | "packet" => some (.plain .packet (listTok v))
+    | "stdio" => some (.plain .stdio (listTok v))
+    | "http" =>
+      ((v.splitOn "|").mapM parseEp).map Srv.http
+    | _ => none
+  | _ => none
+
+def bits (bs : List Bool) : String := String.ofList (bs.map (fun b => if b then '1' else '0'))
+
+/-- component `expose`: <channels> <servers> <via> <req> -/
+def handleExpose (toks : List String) : String :=
+  match toks with
+  | [chs, servers, via, req] =>
+    match (servers.splitOn ";").mapM parseSrv with
+    | none => "bad-op"
+    | some srvs =>
+      let v := via.splitOn ":"
+      match v.head?.bind String.toNat? with
+      | none => "bad-op"
+      | some i =>
+        let path : Str := match v with
+          | [_, p] => p.toList
+          | _ => []
+        let names := listTok chs
+        let cfg : List Chan := (List.range names.length).zipWith (fun i n => ⟨n, i⟩) names
+        let st := srvs.map (srvStarted cfg)
+        let r := runAt exact cfg srvs i path (clientProto (unTilde req))
+        let res := match r.1 with
+          | .connect t => "connect:" ++ toString t | .refused => "refused" | .unreachable => "unreachable"
+        let ds := if r.2.isEmpty then "-" else natList r.2
+        s!"err={bits (st.map (·.1))} listening={bits (st.map (·.2))} res={res} dials={ds}"
   | _ => "bad-op"
 
 end SA.Routing
